@@ -46,6 +46,10 @@ CHECKS = {
     'C08': ('model_checking', 'SEQUENTIAL histories only: activate/deactivate (global, module, parameter and undescribed scopes), *IDN?, disconnect on two '
             'connections interleaved in sequence with updates of symbolic values, chosen by symbolic selectors, against a scope-set model; the '
             'activation-races-update half of the property (thread schedules) is not claimed', '5/C08'),
+    'C18': ('model_checking', 'StructParam layouts, FloatEnumParam label sets, limit parameters and HasControlledBy/HasOutputModule groups under operation '
+            'sequences chosen by symbolic selectors with symbolic values; assertions: member-wise agreement after every step, value = valuedict[index] and '
+            'closest-value write (solver-decided over the symbolic written float), accepted iff inside current symbolic limits, at most one active controller '
+            'named by the output', '5/C18'),
 }
 NOT_YET = 'check not built yet in this round (planned per DESIGN.md section 5); not claimed until its harness runs clean'
 NOT_APPLICABLE = {}
